@@ -115,6 +115,8 @@ def more_fields(f: dict) -> None:
 
     src4 = [2, ['10.0.0.1', 32, 0]]
     f['flow'] = [
+        # two actions in one rule, then (the following cells) rules with `discard` alone: what one definition added stays its own
+        (('source 10.0.0.1/32;', 'discard; mark 10;'), True, {'kind': 'flow', 'afi': 1, 'comps': [src4], 'ecs': sorted(d0 + [FL.ec_mark(10).hex()])}),
         (('destination 10.0.0.1/32;', 'discard;'), True, {'kind': 'flow', 'afi': 1, 'comps': [[1, ['10.0.0.1', 32, 0]]], 'ecs': d0}),
         (('destination 10.0.0.0/33;', 'discard;'), False, None), (('source 10.0.0.256/32;', 'discard;'), False, None), (('source 10.0.0.0/-1;', 'discard;'), False, None),
         (('destination-port =65535;', 'discard;'), True, {'kind': 'flow', 'afi': 1, 'comps': [num(5, 65535)], 'ecs': d0}), (('destination-port =65536;', 'discard;'), False, None),
@@ -480,7 +482,7 @@ def execute(plan: dict) -> dict:
                     if key not in flows:
                         violations.append(viol('C18/accepted-but-not-sent-as-written', f'{_kd(k)}: `{text[:160]}` was accepted; no FlowSpec NLRI decoding to {key[1]!r} arrived (arrived: {[kk[1] for kk in flows][:2]!r})'[:600], field=cell[0], value=_val(cell)))
                         return
-                    if not set(r['ecs']) <= flows[key]:
+                    if set(r['ecs']) != set(flows[key]):  # (exactly the actions written: none missing, none picked up from another definition)
                         violations.append(viol('C18/accepted-but-not-sent-as-written', f'{_kd(k)}: `{text[:160]}` was accepted; action communities {sorted(flows[key])}, expected {r["ecs"]}', field=cell[0], value=_val(cell)))
                         return
                     continue
